@@ -236,6 +236,20 @@ def r02f(ctx):
                 why = "one dict object becomes the index of several item kinds (rows, cells and columns are all keyed from 0): a read of one kind returns wrappers of another" \
                     if not single else "the index is not reset to a new empty dict: wrappers cached before the change stay reachable (or the dict is shared with its source)"
                 ctx.report("R02f", f, a, norm(a, 70), f"{f.ident}: {why}")
+        # the whole `_indexes` attribute: an empty dict, or a dict display whose values are each their own new `{}`
+        for a in walk_no_nested(f.node):
+            if isinstance(a, (ast.Assign, ast.AnnAssign)):
+                tgts = a.targets if isinstance(a, ast.Assign) else [a.target]
+                if not any(isinstance(t, ast.Attribute) and t.attr == "_indexes" for t in tgts) or a.value is None:
+                    continue
+                n += 1
+                v = a.value
+                ok = isinstance(v, ast.Dict) and all(isinstance(x, ast.Dict) and not x.keys for x in v.values) and len(tgts) == 1
+                ctx.instance("R02f", f"{f.file}:{f.ident}", f"{norm(a, 60)}: " + ("new dict of new dicts" if ok else "not a display of fresh dicts"), ok=ok, nontrivial=not ok, line=a.lineno)
+                if not ok:
+                    ctx.report("R02f", f, a, norm(a, 70),
+                               f"{f.ident} rebuilds `_indexes` with `{norm(v, 40)}`: unless every key gets its own new dict (e.g. dict.fromkeys(keys, {{}}) gives all keys ONE dict), "
+                               f"the row, cell and column indexes alias one another and a read of one kind is served wrappers of another")
     if n == 0:
         raise AnalysisError("R02f: no wrapper-index reset found")
 
